@@ -55,8 +55,7 @@ def contracts():
         pre=['y != 0', '!(x == i128::MIN && y == -1)'],
         post=[('div_mod_floor.quot', 'r.0 == floor_quot(x as int, y as int)'),
               ('div_mod_floor.rem', 'r.1 == floor_rem(x as int, y as int)')],
-        entry=('lemma_rust_div(x as int, y as int); lemma_trunc_div_rem(x as int, y as int); '
-               'lemma_trunc_to_floor(x as int, y as int);'))
+        entry='lemma_rust_floor(x as int, y as int);')
     d['rounding::round_quot'] = C(
         pre=['0 < divisor <= i128::MAX as u128', 'rem < divisor', 'rem > 0 ==> quot < i128::MAX'],
         post=[('round_quot.round_div',
